@@ -521,6 +521,10 @@ func handleSUNION(params internal.HandlerFuncParams) ([]byte, error) {
 
 	values := params.GetValues(params.Context, keys.ReadKeys)
 	for key, value := range values {
+		// Keys that do not exist are skipped, as documented.
+		if value == nil {
+			continue
+		}
 		set, ok := value.(*Set)
 		if !ok {
 			return nil, fmt.Errorf("value at key %s is not a set", key)
@@ -553,6 +557,10 @@ func handleSUNIONSTORE(params internal.HandlerFuncParams) ([]byte, error) {
 
 	values := params.GetValues(params.Context, keys.ReadKeys)
 	for key, value := range values {
+		// Keys that do not exist are skipped, as documented.
+		if value == nil {
+			continue
+		}
 		set, ok := value.(*Set)
 		if !ok {
 			return nil, fmt.Errorf("value at key %s is not a set", key)
